@@ -95,3 +95,44 @@ Example C20_ex_trace : exists st1 st2 st3 : state,
   built st3 0 = 1 /\ built_ctx st3 0 1 = 1 /\ built_ctx st3 1 1 = 1 /\ ctx_cache st3 1 1 = true /\ built_ctx st3 2 1 = 0 /\
   t_stack (threads st3 0) = [] /\ t_stack (threads st3 1) = [] /\ locks st3 0 = None /\ locks st3 1 = None.
 Proof. exact example_trace. Qed.
+
+(** ---- parameters (Runtime/ConcParam.v mirrors GetParam / getParam / overrideParam of the runtime library: global RW lock,
+    one mutex per parameter, check - evaluate - store; Proofs/ConcParamProofs.v).  Every reachable state of every schedule. ---- *)
+From GV Require Import Runtime.ConcParam Proofs.ConcParamProofs.
+
+(** concurrent readers only (the setting of the property): every parameter is evaluated at most once *)
+Theorem C20_parameter_evaluated_at_most_once : forall (d0 : CP.pid -> CP.pdef) (st : CP.state) (p : CP.pid),
+  CP.reach (CP.init d0) st -> CP.overrides st p = 0 -> CP.invalidations st p = 0 -> CP.evaluated st p <= 1.
+Proof. exact CPP.param_evaluated_at_most_once. Qed.
+Print Assumptions C20_parameter_evaluated_at_most_once.
+
+(** with writers: at most one evaluation per cache epoch *)
+Theorem C20_parameter_evaluations_bounded : forall (d0 : CP.pid -> CP.pdef) (st : CP.state) (p : CP.pid),
+  CP.reach (CP.init d0) st -> CP.evaluated st p <= 1 + CP.overrides st p + CP.invalidations st p.
+Proof. exact CPP.param_evaluated_bound. Qed.
+Print Assumptions C20_parameter_evaluations_bounded.
+
+(** a cached parameter was evaluated (in this epoch) exactly once, and stays cached with no further evaluation until it is overridden *)
+Theorem C20_parameter_cache_consistent : forall (d0 : CP.pid -> CP.pdef) (st : CP.state) (p : CP.pid),
+  CP.reach (CP.init d0) st ->
+  CP.fresh st p <= 1 /\ CP.fresh st p <= CP.evaluated st p /\ (CP.cache st p = true -> CP.fresh st p = 1 /\ 1 <= CP.evaluated st p).
+Proof. exact CPP.param_cached_after_eval. Qed.
+Print Assumptions C20_parameter_cache_consistent.
+
+Theorem C20_parameter_cached_value_stable : forall (d0 : CP.pid -> CP.pdef) (st st' : CP.state) (p : CP.pid),
+  CP.reach (CP.init d0) st -> CP.reach st st' -> CP.cache st p = true ->
+  CP.overrides st' p = CP.overrides st p -> CP.invalidations st' p = CP.invalidations st p ->
+  CP.cache st' p = true /\ CP.evaluated st' p = CP.evaluated st p.
+Proof. exact CPP.cached_value_stable. Qed.
+Print Assumptions C20_parameter_cached_value_stable.
+
+(** at most one writer, and it excludes every reader *)
+Theorem C20_writer_unique : forall (d0 : CP.pid -> CP.pdef) (st : CP.state) (t1 t2 : CP.tid),
+  CP.reach (CP.init d0) st -> CP.is_writer_mode (CP.t_mode (CP.threads st t1)) = true -> CP.is_writer_mode (CP.t_mode (CP.threads st t2)) = true -> t1 = t2.
+Proof. exact CPP.writer_unique. Qed.
+Print Assumptions C20_writer_unique.
+
+(** OUTSIDE the property (which speaks of concurrent readers): with one concurrent writer the model has a reachable state from
+    which the reader that re-enters the read lock through a generated provider closure and the announced writer never move again.
+    Recorded in DESIGN.md section 9 as an observation, not as a finding against C20. *)
+Example C20_observation_reader_writer_deadlock := CPP.example_deadlock.
